@@ -234,7 +234,9 @@ def construct (probas : List α) (method : Nat) (allowNull : Bool) : Except Err 
 def setFrequencies (s : St α) (probas : List α) : Except Err (St α) :=
   if s.dim = 0 then .ok s
   else if !(sumOk probas) then .error .sum
-  else if probas.length < s.dim then .error .ub
+  -- size test (fourth repair: `DimensionException`, a bpp::Exception; before, a shorter vector was read
+  -- out of bounds and of a longer one the first `dim_` entries were used)
+  else if probas.length ≠ s.dim then .error .sum
   else matchParams s (paramsOf s.method (probas.take s.dim))
 
 /-- `Simplex::Simplex(size_t dim, method, allowNull)` :84-130 -/
